@@ -270,6 +270,14 @@ pub fn observe_lb(x: &large_blobs::Request<'_>) -> V {
 fn get<'a>(v: &'a V, name: &str) -> Option<&'a V> {
     v.get_t(name)
 }
+/// assign an optional member only when the view carries it: members the view does not mention
+/// keep whatever the public constructor (builder / Default) put there, so a constructor that
+/// pre-sets a member is visible to the oracles
+fn set<T>(dst: &mut Option<T>, v: &V, name: &str, f: impl Fn(&V) -> T) {
+    if let Some(x) = get(v, name) {
+        *dst = Some(f(x));
+    }
+}
 fn req<'a>(v: &'a V, name: &str) -> &'a V {
     v.get_t(name).unwrap_or_else(|| panic!("view lacks {}", name))
 }
@@ -318,9 +326,9 @@ pub fn build_rp(v: &V) -> PublicKeyCredentialRpEntity {
 
 pub fn build_user(v: &V) -> PublicKeyCredentialUserEntity {
     let mut u = PublicKeyCredentialUserEntity::from(bytes_n(req(v, "id")));
-    u.icon = get(v, "icon").map(string_n);
-    u.name = get(v, "name").map(string_n);
-    u.display_name = get(v, "displayName").map(string_n);
+    set(&mut u.icon, v, "icon", string_n);
+    set(&mut u.name, v, "name", string_n);
+    set(&mut u.display_name, v, "displayName", string_n);
     u
 }
 
@@ -375,25 +383,59 @@ pub fn build_ctap_options(v: &V) -> get_info::CtapOptions {
     let gb = |n: &str| get(v, n).map(|x| x.as_bool().unwrap());
     o.rk = gb("rk").expect("rk");
     o.up = gb("up").expect("up");
-    o.uv = gb("uv");
-    o.plat = gb("plat");
-    o.cred_mgmt = gb("credMgmt");
-    o.client_pin = gb("clientPin");
-    o.large_blobs = gb("largeBlobs");
-    o.pin_uv_auth_token = gb("pinUvAuthToken");
+    if let Some(b) = gb("uv") {
+        o.uv = Some(b);
+    }
+    if let Some(b) = gb("plat") {
+        o.plat = Some(b);
+    }
+    if let Some(b) = gb("credMgmt") {
+        o.cred_mgmt = Some(b);
+    }
+    if let Some(b) = gb("clientPin") {
+        o.client_pin = Some(b);
+    }
+    if let Some(b) = gb("largeBlobs") {
+        o.large_blobs = Some(b);
+    }
+    if let Some(b) = gb("pinUvAuthToken") {
+        o.pin_uv_auth_token = Some(b);
+    }
     #[cfg(feature = "g")]
     {
-        o.ep = gb("ep");
-        o.uv_acfg = gb("uvAcfg");
-        o.always_uv = gb("alwaysUv");
-        o.authnr_cfg = gb("authnrCfg");
-        o.bio_enroll = gb("bioEnroll");
-        o.uv_bio_enroll = gb("uvBioEnroll");
-        o.set_min_pin_length = gb("setMinPINLength");
-        o.make_cred_uv_not_rqd = gb("makeCredUvNotRqd");
-        o.credential_mgmt_preview = gb("credentialMgmtPreview");
-        o.user_verification_mgmt_preview = gb("userVerificationMgmtPreview");
-        o.no_mc_ga_permissions_with_client_pin = gb("noMcGaPermissionsWithClientPin");
+        if let Some(b) = gb("ep") {
+            o.ep = Some(b);
+        }
+        if let Some(b) = gb("uvAcfg") {
+            o.uv_acfg = Some(b);
+        }
+        if let Some(b) = gb("alwaysUv") {
+            o.always_uv = Some(b);
+        }
+        if let Some(b) = gb("authnrCfg") {
+            o.authnr_cfg = Some(b);
+        }
+        if let Some(b) = gb("bioEnroll") {
+            o.bio_enroll = Some(b);
+        }
+        if let Some(b) = gb("uvBioEnroll") {
+            o.uv_bio_enroll = Some(b);
+        }
+        if let Some(b) = gb("setMinPINLength") {
+            o.set_min_pin_length = Some(b);
+        }
+        if let Some(b) = gb("makeCredUvNotRqd") {
+            o.make_cred_uv_not_rqd = Some(b);
+        }
+        if let Some(b) = gb("credentialMgmtPreview") {
+            o.credential_mgmt_preview = Some(b);
+        }
+        if let Some(b) = gb("userVerificationMgmtPreview") {
+            o.user_verification_mgmt_preview = Some(b);
+        }
+        if let Some(b) = gb("noMcGaPermissionsWithClientPin") {
+            o.no_mc_ga_permissions_with_client_pin = Some(b);
+        }
     }
     o
 }
@@ -402,13 +444,12 @@ pub fn build_ctap_options(v: &V) -> get_info::CtapOptions {
 pub fn build_certifications(v: &V) -> get_info::Certifications {
     // #[non_exhaustive] without Default: a dependent crate obtains one by decoding `{}`
     let mut c: get_info::Certifications = cbor_smol::cbor_deserialize(&[0xa0]).expect("empty certifications");
-    let g = |n: &str| get(v, n).map(num);
-    c.fido = g("FIDO");
-    c.cc_eal = g("CC-EAL");
-    c.fips_cmpv2 = g("FIPS-CMVP-2");
-    c.fips_cmpv3 = g("FIPS-CMVP-3");
-    c.fips_cmpv2_phy = g("FIPS-CMVP-2-PHY");
-    c.fips_cmpv3_phy = g("FIPS-CMVP-3-PHY");
+    set(&mut c.fido, v, "FIDO", num);
+    set(&mut c.cc_eal, v, "CC-EAL", num);
+    set(&mut c.fips_cmpv2, v, "FIPS-CMVP-2", num);
+    set(&mut c.fips_cmpv3, v, "FIPS-CMVP-3", num);
+    set(&mut c.fips_cmpv2_phy, v, "FIPS-CMVP-2-PHY", num);
+    set(&mut c.fips_cmpv3_phy, v, "FIPS-CMVP-3-PHY", num);
     c
 }
 
@@ -418,30 +459,30 @@ pub fn build_get_info(v: &V) -> get_info::Response {
         aaguid: bytes_n(req(v, "aaguid")),
     }
     .build();
-    r.extensions = get(v, "extensions").map(|l| vec_of(l, text_enum));
-    r.options = get(v, "options").map(build_ctap_options);
-    r.max_msg_size = get(v, "maxMsgSize").map(num);
-    r.pin_protocols = get(v, "pinUvAuthProtocols").map(|l| vec_of(l, num));
-    r.max_creds_in_list = get(v, "maxCredentialCountInList").map(num);
-    r.max_cred_id_length = get(v, "maxCredentialIdLength").map(num);
-    r.transports = get(v, "transports").map(|l| vec_of(l, text_enum));
-    r.algorithms = get(v, "algorithms").map(build_known_params);
-    r.max_serialized_large_blob_array = get(v, "maxSerializedLargeBlobArray").map(num);
+    set(&mut r.extensions, v, "extensions", |l| vec_of(l, text_enum));
+    set(&mut r.options, v, "options", build_ctap_options);
+    set(&mut r.max_msg_size, v, "maxMsgSize", num);
+    set(&mut r.pin_protocols, v, "pinUvAuthProtocols", |l| vec_of(l, num));
+    set(&mut r.max_creds_in_list, v, "maxCredentialCountInList", num);
+    set(&mut r.max_cred_id_length, v, "maxCredentialIdLength", num);
+    set(&mut r.transports, v, "transports", |l| vec_of(l, text_enum));
+    set(&mut r.algorithms, v, "algorithms", build_known_params);
+    set(&mut r.max_serialized_large_blob_array, v, "maxSerializedLargeBlobArray", num);
     #[cfg(feature = "g")]
     {
-        r.force_pin_change = get(v, "forcePINChange").map(|x| x.as_bool().unwrap());
-        r.min_pin_length = get(v, "minPINLength").map(num);
-        r.firmware_version = get(v, "firmwareVersion").map(num);
-        r.max_cred_blob_length = get(v, "maxCredBlobLength").map(num);
-        r.max_rpids_for_set_min_pin_length = get(v, "maxRPIDsForSetMinPINLength").map(num);
-        r.preferred_platform_uv_attempts = get(v, "preferredPlatformUvAttempts").map(num);
-        r.uv_modality = get(v, "uvModality").map(num);
-        r.certifications = get(v, "certifications").map(build_certifications);
-        r.remaining_discoverable_credentials = get(v, "remainingDiscoverableCredentials").map(num);
-        r.vendor_prototype_config_commands = get(v, "vendorPrototypeConfigCommands").map(num);
-        r.attestation_formats = get(v, "attestationFormats").map(|l| vec_of(l, text_enum));
-        r.uv_count_since_last_pin_entry = get(v, "uvCountSinceLastPinEntry").map(num);
-        r.long_touch_for_reset = get(v, "longTouchForReset").map(|x| x.as_bool().unwrap());
+        set(&mut r.force_pin_change, v, "forcePINChange", |x| x.as_bool().unwrap());
+        set(&mut r.min_pin_length, v, "minPINLength", num);
+        set(&mut r.firmware_version, v, "firmwareVersion", num);
+        set(&mut r.max_cred_blob_length, v, "maxCredBlobLength", num);
+        set(&mut r.max_rpids_for_set_min_pin_length, v, "maxRPIDsForSetMinPINLength", num);
+        set(&mut r.preferred_platform_uv_attempts, v, "preferredPlatformUvAttempts", num);
+        set(&mut r.uv_modality, v, "uvModality", num);
+        set(&mut r.certifications, v, "certifications", build_certifications);
+        set(&mut r.remaining_discoverable_credentials, v, "remainingDiscoverableCredentials", num);
+        set(&mut r.vendor_prototype_config_commands, v, "vendorPrototypeConfigCommands", num);
+        set(&mut r.attestation_formats, v, "attestationFormats", |l| vec_of(l, text_enum));
+        set(&mut r.uv_count_since_last_pin_entry, v, "uvCountSinceLastPinEntry", num);
+        set(&mut r.long_touch_for_reset, v, "longTouchForReset", |x| x.as_bool().unwrap());
     }
     r
 }
@@ -452,9 +493,9 @@ pub fn build_mc_response(v: &V) -> make_credential::Response {
         auth_data: bytes_n(req(v, "authData")),
     }
     .build();
-    r.att_stmt = get(v, "attStmt").map(build_att_stmt);
-    r.ep_att = get(v, "epAtt").map(|x| x.as_bool().unwrap());
-    r.large_blob_key = get(v, "largeBlobKey").map(byte_array);
+    set(&mut r.att_stmt, v, "attStmt", build_att_stmt);
+    set(&mut r.ep_att, v, "epAtt", |x| x.as_bool().unwrap());
+    set(&mut r.large_blob_key, v, "largeBlobKey", byte_array);
     r
 }
 
@@ -465,24 +506,23 @@ pub fn build_ga_response(v: &V) -> get_assertion::Response {
         signature: bytes_n(req(v, "signature")),
     }
     .build();
-    r.user = get(v, "user").map(build_user);
-    r.number_of_credentials = get(v, "numberOfCredentials").map(num);
-    r.user_selected = get(v, "userSelected").map(|x| x.as_bool().unwrap());
-    r.large_blob_key = get(v, "largeBlobKey").map(byte_array);
-    r.unsigned_extension_outputs = get(v, "unsignedExtensionOutputs")
-        .map(|_| cbor_smol::cbor_deserialize(&[0xa0]).expect("empty unsigned extension outputs"));
-    r.ep_att = get(v, "epAtt").map(|x| x.as_bool().unwrap());
-    r.att_stmt = get(v, "attStmt").map(build_att_stmt);
+    set(&mut r.user, v, "user", build_user);
+    set(&mut r.number_of_credentials, v, "numberOfCredentials", num);
+    set(&mut r.user_selected, v, "userSelected", |x| x.as_bool().unwrap());
+    set(&mut r.large_blob_key, v, "largeBlobKey", byte_array);
+    set(&mut r.unsigned_extension_outputs, v, "unsignedExtensionOutputs", |_| cbor_smol::cbor_deserialize(&[0xa0]).expect("empty unsigned extension outputs"));
+    set(&mut r.ep_att, v, "epAtt", |x| x.as_bool().unwrap());
+    set(&mut r.att_stmt, v, "attStmt", build_att_stmt);
     r
 }
 
 pub fn build_cp_response(v: &V) -> client_pin::Response {
     let mut r = client_pin::Response::default();
-    r.key_agreement = get(v, "keyAgreement").map(build_ecdh);
-    r.pin_token = get(v, "pinUvAuthToken").map(bytes_n);
-    r.retries = get(v, "pinRetries").map(num);
-    r.power_cycle_state = get(v, "powerCycleState").map(|x| x.as_bool().unwrap());
-    r.uv_retries = get(v, "uvRetries").map(num);
+    set(&mut r.key_agreement, v, "keyAgreement", build_ecdh);
+    set(&mut r.pin_token, v, "pinUvAuthToken", bytes_n);
+    set(&mut r.retries, v, "pinRetries", num);
+    set(&mut r.power_cycle_state, v, "powerCycleState", |x| x.as_bool().unwrap());
+    set(&mut r.uv_retries, v, "uvRetries", num);
     r
 }
 
@@ -493,49 +533,48 @@ pub fn build_cred_protect(v: &V) -> credential_management::CredentialProtectionP
 
 pub fn build_cm_response(v: &V) -> credential_management::Response {
     let mut r = credential_management::Response::default();
-    r.existing_resident_credentials_count = get(v, "existingResidentCredentialsCount").map(num);
-    r.max_possible_remaining_residential_credentials_count =
-        get(v, "maxPossibleRemainingResidentCredentialsCount").map(num);
-    r.rp = get(v, "rp").map(build_rp);
-    r.rp_id_hash = get(v, "rpIDHash").map(byte_array);
-    r.total_rps = get(v, "totalRPs").map(num);
-    r.user = get(v, "user").map(build_user);
-    r.credential_id = get(v, "credentialID").map(build_descriptor);
-    r.public_key = get(v, "publicKey").map(build_public_key);
-    r.total_credentials = get(v, "totalCredentials").map(num);
-    r.cred_protect = get(v, "credProtect").map(build_cred_protect);
-    r.large_blob_key = get(v, "largeBlobKey").map(byte_array);
+    set(&mut r.existing_resident_credentials_count, v, "existingResidentCredentialsCount", num);
+    set(&mut r.max_possible_remaining_residential_credentials_count, v, "maxPossibleRemainingResidentCredentialsCount", num);
+    set(&mut r.rp, v, "rp", build_rp);
+    set(&mut r.rp_id_hash, v, "rpIDHash", byte_array);
+    set(&mut r.total_rps, v, "totalRPs", num);
+    set(&mut r.user, v, "user", build_user);
+    set(&mut r.credential_id, v, "credentialID", build_descriptor);
+    set(&mut r.public_key, v, "publicKey", build_public_key);
+    set(&mut r.total_credentials, v, "totalCredentials", num);
+    set(&mut r.cred_protect, v, "credProtect", build_cred_protect);
+    set(&mut r.large_blob_key, v, "largeBlobKey", byte_array);
     #[cfg(feature = "t")]
     {
-        r.third_party_payment = get(v, "thirdPartyPayment").map(|x| x.as_bool().unwrap());
+        set(&mut r.third_party_payment, v, "thirdPartyPayment", |x| x.as_bool().unwrap());
     }
     r
 }
 
 pub fn build_lb_response(v: &V) -> large_blobs::Response {
     let mut r = large_blobs::Response::default();
-    r.config = get(v, "config").map(bytes_n);
+    set(&mut r.config, v, "config", bytes_n);
     r
 }
 
 pub fn build_mc_ext(v: &V) -> make_credential::Extensions {
     let mut e = make_credential::Extensions::default();
-    e.cred_protect = get(v, "credProtect").map(num);
-    e.hmac_secret = get(v, "hmac-secret").map(|x| x.as_bool().unwrap());
-    e.large_blob_key = get(v, "largeBlobKey").map(|x| x.as_bool().unwrap());
+    set(&mut e.cred_protect, v, "credProtect", num);
+    set(&mut e.hmac_secret, v, "hmac-secret", |x| x.as_bool().unwrap());
+    set(&mut e.large_blob_key, v, "largeBlobKey", |x| x.as_bool().unwrap());
     #[cfg(feature = "t")]
     {
-        e.third_party_payment = get(v, "thirdPartyPayment").map(|x| x.as_bool().unwrap());
+        set(&mut e.third_party_payment, v, "thirdPartyPayment", |x| x.as_bool().unwrap());
     }
     e
 }
 
 pub fn build_ga_ext_out(v: &V) -> get_assertion::ExtensionsOutput {
     let mut e = get_assertion::ExtensionsOutput::default();
-    e.hmac_secret = get(v, "hmac-secret").map(bytes_n);
+    set(&mut e.hmac_secret, v, "hmac-secret", bytes_n);
     #[cfg(feature = "t")]
     {
-        e.third_party_payment = get(v, "thirdPartyPayment").map(|x| x.as_bool().unwrap());
+        set(&mut e.third_party_payment, v, "thirdPartyPayment", |x| x.as_bool().unwrap());
     }
     e
 }
